@@ -135,6 +135,57 @@ def many_sids_plan(rkspec, seed: int, k: int, fl_p: str, fl_u: str) -> dict:
             "ops": ops, "entropy_script": [], "mode": "pub", "family": "many-sids"}
 
 
+def _kek_job(job):
+    """Decrypt-side KEK for a reference-made public-key (or nonce) key identifier through the library's own functions."""
+    import hashlib
+
+    from dpapi_ng._blob import KeyIdentifier
+
+    what, k = job
+    hash_name = offline.HASHES[k % 4]
+    secret = ("DH", "ECDH_P256", "ECDH_P384")[k % 3] if what == "pub" else "DH"
+    rk = offline.synth_root_key(40 + k % 3, hash_name, secret)
+    sd = dtyp.target_sd(SID if k % 2 else SID2)
+    l0, l1, l2 = 350 + k % 100, (k // 5) % 32, (k // 11) % 32
+    cache = offline.new_cache(rk)
+    env = cache._get_key(sd, rk.root_key_id, l0, l1, l2)
+    h = hashlib.sha512(b"kekjob%d" % k).digest()
+    if what == "pub":
+        n = (rk.private_key_length + 7) // 8
+        seedb = (h * 2)[:n]
+        if secret != "DH":
+            c = gkdi.curve_of(secret)
+            seedb = ((int.from_bytes(seedb, "big") % (c.n - 1)) + 1).to_bytes(n, "big")
+        l2_seed = cms.chain_for(rk, sd, l0).l2_seed(l1, l2)
+        pub = gkdi.group_public_key(hash_name, l2_seed, secret, rk.eff_secret_params, rk.private_key_length)
+        _kek, key_info = gkdi.kek_encrypt_side(hash_name, secret, pub, seedb)
+        flags = 1
+    else:
+        key_info, flags = h[:32], 0
+    kid = KeyIdentifier(version=1, flags=flags, l0=l0, l1=l1, l2=l2, root_key_identifier=rk.root_key_id, key_info=key_info,
+                        domain_name="domain.test", forest_name="domain.test")
+    return bytes(env.get_kek(kid))
+
+
+def run_pure_threads(case) -> dict:
+    """{"family": "pure-threads", ...}: 2..3 caller threads derive decrypt-side KEKs at the same time (separate caches)."""
+    import random
+
+    from checks import threadpure
+    from simworld import world as W
+
+    r = random.Random(case["seed"])
+    jobs = []
+    for _ in range(case["n"]):
+        mine = [(r.choice(("pub", "pub", "nonce")), r.randrange(100000)) for _ in range(2)]
+        jobs.append([r.choice(mine) for _ in range(r.randint(2, 4))])
+    world = W.World(case["seed"])
+    with world.installed():
+        out = threadpure.run("C03", "decrypt-side", case, jobs, _kek_job, case["seed"], case["policy"])
+    out["probes"] = dict(out.get("probes") or {}, pure_thread_cases=1)
+    return out
+
+
 def lz(b: bytes) -> int:
     return len(b) - len(b.lstrip(b"\x00"))
 
@@ -245,12 +296,12 @@ class C03(common.Check):
             "lengths that are not multiples of 8) where leading zeros are frequent; scripted all-zero / leading-zero nonces and nonces that begin with the magic of a public-key structure; PRNG draws; "
             "a dozen principals protected and unprotected at one key position in one process; two root keys whose DH groups share the prime but differ in key_length padding / generator used one after the other in one process; "
             "plans in which 2..3 principals protect (and later unprotect) at the same time from caller threads of one process, pre-empted at "
-            "PRNG-chosen line events inside dpapi_ng. "
+            "PRNG-chosen line events inside dpapi_ng; 2..3 threads deriving decrypt-side KEKs for reference-made key identifiers at the same time. "
             "Non-trivial = a leading-zero condition held (measured with the reference arithmetic); distinct = distinct plan.")
     components = {"client": "real (new_kek / get_kek / compute_kek / compute_public_key through the public API)", "entropy": "simulated, scripted draws",
                   "DC": "model (RefDC, public-key and seed replies)", "independent implementation": "ref.gkdi + ref.ec (own P-256/P-384 arithmetic, pow() DH, hashlib KDFs)"}
     assumptions = ["reference calibrated on the 16 Windows blobs (gate before every run)", "hash x algorithm sweep is workload parameterisation"]
-    required_fired = ("two_sids_same_position", "key_length_wider_than_modulus", "lz_shared_secret", "lz_public_value", "lz_coord_x", "lz_coord_y", "lz_nonce", "agree_DH_pub", "agree_ECDH_P256_pub", "agree_ECDH_P384_pub", "agree_DH_nonce", "thread_plans", "thread_overlap", "nonce_with_structure_magic", "two_groups_same_prime", "many_sids_one_position")
+    required_fired = ("two_sids_same_position", "key_length_wider_than_modulus", "lz_shared_secret", "lz_public_value", "lz_coord_x", "lz_coord_y", "lz_nonce", "agree_DH_pub", "agree_ECDH_P256_pub", "agree_ECDH_P384_pub", "agree_DH_nonce", "thread_plans", "thread_overlap", "nonce_with_structure_magic", "two_groups_same_prime", "many_sids_one_position", "pure_thread_cases")
 
     def cases(self, tier, seed):
         rng = prng.stream(seed, "C03")
@@ -271,6 +322,11 @@ class C03(common.Check):
             kl = (2, 3, 4, 8)[k % 4]
             spec = [54 + k % 3, offline.HASHES[k % 4], "DH", {"dh": small_group(kl, k % 40), "priv_len": kl * 8}] if k % 5 else [55, offline.HASHES[k % 4], offline.SECRETS[k % 3]]
             out.append(thread_plan(spec, rng.getrandbits(31), "pub" if rng.random() < 0.8 else "nonce", k))
+        from checks import threadpure
+
+        for k in range(240 if tier == "quick" else 10000):
+            pol = {"mode": "prob", "p": (0.003, 0.01, 0.03)[k % 3]} if k % 5 < 2 else threadpure.policy_for(k, seams=False)
+            out.append({"family": "pure-threads", "seed": rng.getrandbits(30), "n": 2 + k % 2, "policy": pol, "ops": [], "entropy_script": [], "root_keys": [[0, "SHA256", "DH"]], "mode": "pub"})
         for k in range(24 if tier == "quick" else 1000):
             kl = (2, 3, 4, 8)[k % 4]
             spec = [58, offline.HASHES[k % 4], "DH", {"dh": small_group(kl, k % 40), "priv_len": kl * 8}] if k % 3 else [59, offline.HASHES[k % 4], offline.SECRETS[k % 3]]
@@ -293,6 +349,8 @@ class C03(common.Check):
         return out
 
     def run_case(self, case):
+        if case.get("family") == "pure-threads":
+            return run_pure_threads(case)
         tr = P.execute_plan(case)
         viol, probes = judge(case, tr)
         nontrivial = any(k.startswith("lz_") for k in probes)
@@ -303,12 +361,25 @@ class C03(common.Check):
                 "probes": probes, "vtime_ns": tr.world.stats.get("vtime_ns", 0)}
 
     def shrink(self, case):
+        if case.get("family") == "pure-threads":
+            pol = case["policy"]
+            if pol.get("mode") != "script":
+                sc = run_pure_threads(case).get("_script")
+                if sc:
+                    yield dict(case, policy=sc)
+            else:
+                sw = pol["switches"]
+                for k in range(min(len(sw), 40)):
+                    yield dict(case, policy=dict(pol, switches=sw[:k] + sw[k + 1 :]))
+            return
         yield from P.thread_shrinks(case)
         for i, o in enumerate(case["ops"]):
             if o.get("fl") == "async":
                 yield dict(case, ops=case["ops"][:i] + [dict(o, fl="sync")] + case["ops"][i + 1 :])
 
     def sample_repr(self, case, res):
+        if case.get("family") == "pure-threads":
+            return {k: case[k] for k in ("family", "seed", "n", "policy")}
         rk = case["root_keys"][0]
         return {"root_key": rk[:3] + ([{"dh_key_length": rk[3]["dh"][0], "p": hex(rk[3]["dh"][1]), "priv_len": rk[3]["priv_len"]}] if len(rk) > 3 else []),
                 "mode": case["mode"], "scripted_draws": [(e["source"], e["n"], e["hex"][:16] + "...") for e in case["entropy_script"]]}
